@@ -74,7 +74,9 @@ type ScalarCase struct {
 	// as NewVVar().SetRules(prefix...).SetRules(own...) where prefix is ONE slice per process (with spare
 	// capacity) that every such call spreads into the first SetRules (callers keep their common rules in one place)
 	Common string `json:"common,omitempty"`
-	noDup  bool
+	// Under (rm carrier): the field also carries a TAG with this rule text, which the rule map of the call replaces
+	Under string `json:"under,omitempty"`
+	noDup bool
 }
 
 // commonRules: the shared rule prefixes.
@@ -364,7 +366,11 @@ func (c *ScalarCase) prepareV(out *reflect.Value) func() error {
 		}
 		return func() error { return valid.Struct(src) }
 	case "rm":
-		st := desc.T{K: "struct", Fields: append(c.leadFields(), desc.F{Name: "K", T: c.T})}
+		kf := desc.F{Name: "K", T: c.T}
+		if c.Under != "" {
+			kf.Tags = map[string]string{"valid": c.Under}
+		}
+		st := desc.T{K: "struct", Fields: append(c.leadFields(), kf)}
 		sv := reflect.New(desc.Type(st))
 		c.fillLead(sv.Elem())
 		sv.Elem().FieldByName("K").Set(v)
